@@ -597,6 +597,69 @@ func runC07(c *Check) {
 		}, "Close", "file")
 	}
 	c.Floor("R7.4", "file open sites", nfd, 4)
+	// R7.6: partial files are recognised by their size only, so nothing may change a file's size except writing content
+	c.Rule("R7.6", "no size-changing call (Truncate, fallocate, Seek past the end) on store files: partial writes are detected by size")
+	sizeChanging := p.allCallSites(func(o *types.Func) bool {
+		if pkgPathOf(o) == "os" && recvNamed(o) != nil && recvNamed(o).Obj().Name() == "File" && o.Name() == "Truncate" {
+			return true
+		}
+		if pkgPathOf(o) == "os" && o.Name() == "Truncate" {
+			return true
+		}
+		return (pkgPathOf(o) == "syscall" || strings.HasSuffix(pkgPathOf(o), "x/sys/unix")) && (o.Name() == "Fallocate" || o.Name() == "Ftruncate" || o.Name() == "Truncate")
+	})
+	nSC := 0
+	for _, s := range sizeChanging {
+		r := rootFunc(s.Parent())
+		if r.Pkg == nil || !strings.HasPrefix(r.Pkg.Pkg.Path(), pkgStore) {
+			continue
+		}
+		nSC++
+		c.Ob("R7.6", calleeObj(s.Common()).Name()+"@"+fnName(s.Parent()), false, p.Pos(s.Pos()),
+			"the file's size is set independently of its content: a crash afterwards leaves a full-size file that ValidateODS*Size accepts although its tail was never written")
+	}
+	liveW := 0
+	for _, s := range p.allCallSites(func(o *types.Func) bool { return pkgPathOf(o) == "os" && recvNamed(o) != nil && recvNamed(o).Obj().Name() == "File" && o.Name() == "Close" }) {
+		if r := rootFunc(s.Parent()); r.Pkg != nil && strings.HasPrefix(r.Pkg.Pkg.Path(), pkgStore) {
+			liveW++
+		}
+	}
+	c.Floor("R7.6", "(*os.File).Close call sites under store/ (matcher liveness)", liveW, 2)
+	c.Ob("R7.6", "no size-changing calls", nSC == 0, "-", fmt.Sprintf("%d size-changing calls under store/; the same matcher sees %d (*os.File).Close sites", nSC, liveW))
+	// R7.7: removal removes every file of the block
+	c.Rule("R7.7", "a successful removal has removed the block's files by hash, not only the height link")
+	for _, rm := range []struct{ name, ext string }{{"removeODS", "odsFileExt"}, {"removeQ4", "q4FileExt"}} {
+		fn := p.Func("store", "Store", rm.name)
+		if fn == nil {
+			c.Unresolved("R7.7", rm.name+" not found")
+			continue
+		}
+		c.SawFunc(fn)
+		byHash := blocksWhere(fn, func(ins ssa.Instruction) bool {
+			g, ok := ins.(*ssa.Call)
+			if !ok || g.Call.StaticCallee() == nil || g.Call.StaticCallee().Name() != "remove" {
+				return false
+			}
+			return backSlice(g.Call.Args[0], SliceOpt{CallArgs: true}).Has(func(v ssa.Value) bool {
+				h, ok := v.(*ssa.Call)
+				return ok && h.Call.StaticCallee() != nil && h.Call.StaticCallee().Name() == "hashToPath"
+			})
+		})
+		emptyCut := callGates(func(g *ssa.Call, _ int) GateKind {
+			if o := calleeObj(&g.Call); o != nil && o.Name() == "IsEmptyEDS" {
+				return GateTrue
+			}
+			return NotGate
+		})
+		// success returns that are not in the by-hash removal's own error handling
+		tg := map[*ssa.BasicBlock]bool{}
+		for _, r := range successReturns(fn) {
+			tg[r.Block()] = true
+		}
+		res := gateWalkOpts(p, fn, minusBarrier(tg, byHash), emptyCut, nil, byHash)
+		c.Ob("R7.7", rm.name+": file removed by hash", len(byHash) > 0 && !res.Reached, p.Pos(fn.Pos()),
+			"for a non-empty block every success return passes remove(hashToPath(datahash, ...)): a missing height link (crash before linking) must not skip the removal of a partially written file", res.Witness...)
+	}
 	// R7.5
 	put := p.Func("store", "Store", "put")
 	if put != nil {
